@@ -12,7 +12,7 @@ Require Import Cirbo.Model.Base Cirbo.Model.Gate Cirbo.Model.Den Cirbo.Model.Cir
         Cirbo.Model.Sem Cirbo.Model.Cnf Cirbo.Model.TseytinAlg.
 Require Import Cirbo.Generated.GateTypes Cirbo.Generated.Tseytin.
 Require Import Cirbo.Proofs.DictFacts Cirbo.Proofs.OpFacts Cirbo.Proofs.SemFacts Cirbo.Proofs.TseytinTemplates.
-Open Scope Z_scope.
+Local Open Scope Z_scope.
 
 (* ---------- the hypotheses as propositions --------------------------------------- *)
 Definition inputs_exact (c : circuit) : Prop :=
